@@ -408,6 +408,9 @@ func (x *extras) atQuiescence() {
 	if cl.on["restartenum"] {
 		x.restartEnum()
 	}
+	if cl.on["permtwin"] {
+		x.permutationTwin()
+	}
 	if cl.on["fc"] || cl.on["clock"] {
 		x.indexReuse()
 	}
@@ -744,5 +747,89 @@ func (x *extras) restartAt(keep *shadow, calls []procCall, recs []stepRec, snaps
 		if d := stateDigest(r.inst, r.dbs, false); len(recs) > 0 && d != recs[len(recs)-1].digest {
 			c.Violation("restart", "restart/state", "restart after the last event: state differs\n restarted: %s\n kept:      %s", d, recs[len(recs)-1].digest)
 		}
+	}
+}
+
+// permutationTwin (C01): a fresh observer instance receives exactly the events the first live node
+// processed, epoch by epoch, in an independently chosen parents-first linearisation; every valid event
+// must be accepted and the emitted blocks must be identical.
+func (x *extras) permutationTwin() {
+	cl := x.cl
+	c := cl.c
+	src := cl.firstLive()
+	if src == nil {
+		return
+	}
+	from := src.resetFrom
+	if from == 0 {
+		from = 1
+	}
+	tw := cl.newShadow("permutation-twin", newDBs(), true)
+	if from > 1 {
+		var err error
+		tw.guard("Reset", func() { err = tw.inst.lch.Reset(idx.Epoch(from), cl.epochRef(from).PV) })
+		if err != nil {
+			c.Violation("reset-error", "reset-error", "permutation twin: Reset returned %v", err)
+		}
+	}
+	seed := sim.Mix(cl.k.vsetSeed, uint64(len(cl.pool)), 0x7e)
+	for e := from; e <= src.epoch(); e++ {
+		ord := src.order[e]
+		inSet := map[int]bool{}
+		for _, g := range ord {
+			inSet[g] = true
+		}
+		done := map[int]bool{}
+		fed := 0
+		for fed < len(ord) && uint32(tw.inst.store.GetEpoch()) == e {
+			var ready []int
+			for _, g := range ord {
+				if done[g] {
+					continue
+				}
+				ok := true
+				for _, p := range cl.parentsG(cl.pool[g]) {
+					if inSet[p] && !done[p] {
+						ok = false
+					}
+				}
+				if ok {
+					ready = append(ready, g)
+				}
+			}
+			if len(ready) == 0 {
+				break
+			}
+			g := ready[sim.Mix(seed, uint64(e), uint64(fed))%uint64(len(ready))]
+			done[g] = true
+			fed++
+			if err := tw.process(cl.pool[g]); err != nil {
+				c.Violation("valid-rejected", "valid-rejected/permutation-twin", "an observer fed the same events in another parents-first order rejected %s: %v", cl.descEv(cl.pool[g]), err)
+			}
+		}
+		c.Count("permutation_twin_events", int64(fed))
+	}
+	var want []*BlockRec
+	for _, b := range src.blocks {
+		if b.Epoch >= from {
+			want = append(want, b)
+		}
+	}
+	// the twin may have processed fewer events of the last epochs than the source only if it sealed earlier in
+	// its order; its blocks must be a prefix-equal sequence of the source's blocks, and equal when all was fed
+	for i, b := range tw.blocks {
+		if i >= len(want) || want[i].key() != b.key() {
+			got := ""
+			if i < len(want) {
+				got = want[i].key()
+			}
+			c.Violation("disagreement", "disagreement/permutation-twin", "block %d: an observer fed the same events in another parents-first order emitted %s, node %s emitted %s", i, b.key(), src.name, got)
+		}
+	}
+	if len(tw.blocks) != len(want) {
+		c.Violation("disagreement", "disagreement/permutation-twin", "an observer fed the same events in another parents-first order emitted %d blocks, node %s emitted %d\n twin: %s\n node: %s", len(tw.blocks), src.name, len(want), cl.fmtBlocks(tw.blocks), cl.fmtBlocks(want))
+	}
+	if len(want) > 0 {
+		c.Probe("permutation_twin_compared_blocks")
 	}
 }
